@@ -47,8 +47,10 @@ class Sub:
     """One sub-domain of a property: a Hypothesis strategy or an exhaustive generator."""
 
     def __init__(self, name, strategy=None, gen=None, n=(200, 4000), shards=(4, 16),
-                 shrink=True, size=None):
+                 shrink=True, size=None, machine=None, steps=(20, 50)):
         self.name = name
+        self.machine = machine        # callable() -> stateful spec {'init': strategy, 'key': str, 'rules': {name: strategy}} (see _run_machine)
+        self.steps = steps            # stateful_step_count (quick, thorough)
         self.strategy = strategy      # hypothesis strategy producing JSON cases
         self.gen = gen                # callable(tier) -> iterable of JSON cases (finite, exhaustive)
         self.n = n                    # examples per shard (quick, thorough)
@@ -239,6 +241,9 @@ def run_unit(args):
                 res["violations"].append({"site": site, "features": v["features"], "msg": v["msg"], "case": case})
             res["exhaustive"] = True
             res["enum_size"] = count
+        elif sub.machine is not None:
+            n, _ = sub.budget(tier)
+            res["violations"] = _run_machine(ctx, sub, n, derive_seed(seed, pid, subname, shard), sub.steps[0 if tier == "quick" else 1])
         else:
             n, _ = sub.budget(tier)
             res["violations"] = _run_hypothesis(ctx, sub, n, derive_seed(seed, pid, subname, shard))
@@ -280,6 +285,76 @@ def _run_hypothesis(ctx, sub, n, seed):
         test = hypothesis.seed(seed + rnd)(test)
         try:
             test()
+        except PropFail:
+            case, v = state["fail"]
+            found.append({"site": v["site"], "features": v["features"], "msg": v["msg"], "case": case})
+            muted.add(v["site"])
+            continue
+        break
+    return found
+
+
+def _run_machine(ctx, sub, n, seed, steps):
+    """
+    Hypothesis stateful mode.  The module's spec gives an initial-state strategy (a JSON case whose list under
+    spec['key'] starts empty) and one strategy per rule, each producing one JSON operation.  A rule appends its
+    operation to the history and the oracle (check_case) is run on the history so far, so the machine fails at
+    the first offending step, Hypothesis shrinks the rule sequence as one value, and the failing history *is* the
+    replayable JSON case.  Site bucketing / muting as in _run_hypothesis.
+    """
+    import copy
+    import hypothesis
+    from hypothesis import settings, HealthCheck, Phase, Verbosity
+    from hypothesis.stateful import RuleBasedStateMachine, rule, initialize, run_state_machine_as_test
+    spec = sub.machine()
+    key = spec["key"]
+    phases = [Phase.generate, Phase.target]
+    if sub.shrink:
+        phases.append(Phase.shrink)
+    muted = set()
+    found = []
+    for rnd in range(6):
+        state = {"fail": None, "site": None}
+
+        def on_case(case):
+            unknown = [v for v in ctx.evaluate(case, counting=state["site"] is None) if v["site"] not in muted]
+            if not unknown:
+                return
+            if state["site"] is None:
+                state["site"] = unknown[0]["site"]
+            hit = [v for v in unknown if v["site"] == state["site"]]
+            if hit:
+                state["fail"] = (copy.deepcopy(case), hit[0])
+                raise PropFail(state["site"])
+
+        ns = {}
+
+        def __init__(self):
+            RuleBasedStateMachine.__init__(self)
+            self.case = None
+
+        @initialize(c=spec["init"])
+        def _start(self, c):
+            self.case = copy.deepcopy(c)
+            self.case[key] = []
+        ns["__init__"] = __init__
+        ns["_start"] = _start
+
+        def mk(rname, strat):
+            @rule(op=strat)
+            def r(self, op):
+                self.case[key].append(copy.deepcopy(op))
+                on_case(self.case)
+            r.__name__ = "rule_" + rname
+            return r
+        for rname, strat in sorted(spec["rules"].items()):
+            ns["rule_" + _slug(rname)] = mk(_slug(rname), strat)
+        Machine = type("Machine_" + sub.name, (RuleBasedStateMachine,), ns)
+        sett = settings(max_examples=n, stateful_step_count=steps, database=None, deadline=None, report_multiple_bugs=False,
+                        derandomize=False, suppress_health_check=list(HealthCheck), phases=phases, print_blob=False,
+                        verbosity=Verbosity.quiet)
+        try:
+            run_state_machine_as_test(hypothesis.seed(seed + rnd)(Machine), settings=sett)
         except PropFail:
             case, v = state["fail"]
             found.append({"site": v["site"], "features": v["features"], "msg": v["msg"], "case": case})
